@@ -88,6 +88,8 @@ PLAN = {   # which properties' quick checks are run against which seeded change
     "C15-d": ["C15"], "C17-d": ["C17"], "C19-d": ["C19"],
     "C02-e": ["C02"], "C03-e": ["C03"], "C04-e": ["C04"], "C05-e": ["C05"], "C09-e": ["C09"], "C10-e": ["C10"], "C11-e": ["C11"],
     "C16-e": ["C16"], "C18-e": ["C18"], "C20-e": ["C20"],
+    "C01-f": ["C01"], "C06-f": ["C06"], "C07-f": ["C07"], "C08-f": ["C08"], "C12-f": ["C12"], "C13-f": ["C13"], "C14-f": ["C14"],
+    "C15-f": ["C15"], "C17-f": ["C17"], "C19-f": ["C19"],
 }
 
 
